@@ -414,7 +414,20 @@ Definition c18_code (e : vkind) : Z :=
   | EStatus => 0 | EMoof => 1 | EMdat => 2 | ETrunOffset => 3 | ETrunEnd => 4 | ESencMissing => 5 | ESaioMissing => 6
   | ESaioCount => 7 | ESaioOffset => 8 | ESencCount => 9 | ESencInClear => 10 | ESeq => 11 | EDecode => 12 | EDuration => 13
   end.
+Definition c18_mcode (e : mkind) : Z :=
+  match e with
+  | MNoPeriod => 0 | MMinBuf => 1 | MType => 2 | MAst => 3 | MTsbd => 4 | MMpdInLive => 5 | MMpdInvalid => 6 | MPeriodDur => 7
+  | MMupInVod => 8 | MAstInVod => 9 | MPatchInVod => 10 | MAstChanged => 11
+  end.
+(* manifest facts: (-1 live dynamic periods minbuf ast tsbd mup (mpd?) perioddurations patches (prevast?) (ast?)) *)
+Definition c18_manifest (v : val) : val :=
+  let b n := 0 <? vint (vnth n v) in
+  let f := {| m_live := b 1%nat; m_dynamic := b 2%nat; m_periods := vint (vnth 3 v); m_has_minbuf := b 4%nat; m_has_ast := b 5%nat;
+              m_has_tsbd := b 6%nat; m_has_mup := b 7%nat; m_mpd := as_opt_int (vnth 8 v); m_period_durations := b 9%nat;
+              m_patches := vint (vnth 10 v); m_prev_ast := as_opt_int (vnth 11 v); m_ast := as_opt_int (vnth 12 v) |} in
+  of_ints (map c18_mcode (manifest_errors f)).
 Definition c18_run (v : val) : val :=
+  if vint (vnth 0 v) =? -1 then c18_manifest v else
   let z n := vint (vnth n v) in
   let b n := 0 <? vint (vnth n v) in
   let f := {| g_status := z 0%nat; g_has_moof := b 1%nat; g_has_mdat := b 2%nat; g_first_sample := z 3%nat; g_payload_start := z 4%nat;
